@@ -39,6 +39,9 @@ def _alpha_dump(f: ast.AST) -> str:
     from sa.match import clone
 
     c = clone(f)
+    if c.args.args and c.args.args[0].arg in ("self", "cls"):  # type: ignore[attr-defined]
+        c.args.args = c.args.args[1:]  # type: ignore[attr-defined]
+    c.decorator_list = []  # type: ignore[attr-defined]
     names: dict = {}
     for a in c.args.posonlyargs + c.args.args + c.args.kwonlyargs:  # type: ignore[attr-defined]
         names.setdefault(a.arg, f"v{len(names)}")
@@ -73,9 +76,12 @@ def _tags_or_default(e: ast.AST, consts: dict) -> Optional[Tuple[bool, Optional[
 
 
 def grouping_of(repo: Repo, fn: Function) -> Grouping:
+    from sa.flatten import flatten
     from sa.match import Locals
 
     mod = fn.module
+    orig = fn
+    fn = flatten(fn)  # the grouping may live in a private helper of the same class / module
     L = Locals(fn.node)
     consts = {}
     for st in mod.tree.body:
@@ -110,13 +116,21 @@ def grouping_of(repo: Repo, fn: Function) -> Grouping:
     # canonical spelling: max(<candidates>, key=<score function>)
     score = None
     chooses = False
-    nested = {f.name: f for q, f in mod.functions.items() if q.startswith(fn.qualname + ".<locals>.")}
+    nested = {f.name: f for q, f in mod.functions.items() if ".<locals>." in q and q.split(".<locals>.")[0] in (orig.qualname,) + tuple(
+        m.qualname for m in (orig.cls.methods.values() if orig.cls else []))}
+    toplevel = {f.name: f for q, f in mod.functions.items() if "." not in q}
+    methods = dict(orig.cls.methods) if orig.cls else {}
     for n in own_nodes(fn.node):
         if isinstance(n, ast.Call) and dotted(n.func) == "max":
             for k in n.keywords:
-                if k.arg == "key" and isinstance(k.value, ast.Name) and k.value.id in nested:
+                target = None
+                if k.arg == "key" and isinstance(k.value, ast.Name):
+                    target = nested.get(k.value.id) or toplevel.get(k.value.id)
+                elif k.arg == "key" and isinstance(k.value, ast.Attribute) and isinstance(k.value.value, ast.Name) and k.value.attr in methods:
+                    target = methods[k.value.attr]
+                if target is not None:
                     chooses = True
-                    score = _alpha_dump(nested[k.value.id].node)
+                    score = _alpha_dump(target.node)
                 elif k.arg == "key" and isinstance(k.value, ast.Lambda):
                     chooses = True
                     score = ast.dump(k.value.body)
@@ -125,8 +139,10 @@ def grouping_of(repo: Repo, fn: Function) -> Grouping:
 
 def naming_of(fn: Function) -> List[str]:
     """How class / module names are derived from the canonical tag in this function (normalised expression texts)."""
+    from sa.flatten import flatten
+
     out = set()
-    for c in calls_in(fn.node, include_nested_defs=True):
+    for c in calls_in(flatten(fn).node, include_nested_defs=True):
         d = dotted(c.func) or ""
         if d in ("NameSanitizer.sanitize_class_name", "NameSanitizer.sanitize_module_name", "NameSanitizer.sanitize_tag_class_name",
                  "NameSanitizer.sanitize_tag_attr_name", "NameSanitizer.sanitize_filename") and c.args:
